@@ -1,5 +1,5 @@
 //! C10 — block builders emit exactly the accepted bundles within the cost limit.
-//! Engine H: every history of <= 3 (quick) / <= 5 (thorough) add_spend_bundles calls over a
+//! Engine H: every history of <= 4 (quick) / <= 5 (thorough) add_spend_bundles calls over a
 //! 25-letter alphabet (5 bundle shapes x 5 declared-cost policies, incl. "lands exactly on the
 //! limit" and "one more than that") followed by finalize, for both builders, each re-executed on
 //! a fresh real builder. Oracles: own decoding of the generator, own signature aggregate,
@@ -427,7 +427,7 @@ fn parse_hist(v: &Value) -> Vec<(Shape, CostPolicy)> {
 }
 
 fn run(rep: &Report) {
-    let depth = rep.tier.pick(3, 5);
+    let depth = rep.tier.pick(4, 5);
     rep.set_rule(&format!("every history of <= {depth} add_spend_bundles calls over 25 letters = bundle shape {{one spend, two spends sharing its puzzle, 40 kB solution, undecodable reveal, batch of two bundles}} x declared cost {{truthful, lands exactly on the limit, that + 1, limit + 1, 0}}, followed by finalize, on a fresh BlockBuilder and a fresh InternedBlockBuilder (max block cost {MAX_BLOCK}); states = distinct (accepted adds, cost() estimate, last result) tuples; distinct = distinct histories x builder"));
     rep.assume("truthful cost = execution + condition cost reported by run_spendbundle; 'lands exactly' is computed by a dry run of the same history on the real builder; generator decoded with clvmr's back-reference parser + harness Sx");
     // truthful costs per (shape, position)
